@@ -12,8 +12,27 @@ pub fn scenarios() -> Vec<Scenario> {
         Scenario::new("SELF", "alloc", "run 4 requests 3 GiB in one allocation", run_alloc, 8, 8),
         Scenario::new("SELF", "needle", "violates its oracle only when fault a=3, fault b=5 and schedule c=2 coincide among 30 irrelevant draws", run_needle, 20_000, 20_000),
     ];
+    v.push(Scenario::new(
+        "SELF",
+        "hang-twice",
+        "runs 3 and 150 of 200 never return: the worker killed by the watchdog is replaced in the same slot, and the late end-of-pipe report of the killed worker must not be taken for the replacement's",
+        run_hang_twice,
+        200,
+        200,
+    ));
     v[1].watchdog_s = 3;
+    v[4].watchdog_s = 3;
     v
+}
+
+fn run_hang_twice() -> Outcome {
+    let i = tape::indexed("self.case", 1 << 20);
+    if i == 3 || i == 150 {
+        loop {
+            std::hint::spin_loop();
+        }
+    }
+    Ok(())
 }
 
 fn run_abort() -> Outcome {
